@@ -1,8 +1,6 @@
 (* Property C01, continued: composition with the striping model of property C04
    (coq/stripe).  Kept in its own file because it is the only part of the development
-   that depends on another model group: when coq/stripe does not build, props/c01.py
-   leaves this file (and StripeBridge.v) out of the build and says so in the evidence,
-   instead of reporting every C01 obligation as broken. *)
+   that depends on another model group. *)
 From Coq Require Import List Arith Bool Lia ZArith.
 From LMBase Require Import Res ListX IEEE.
 From LMScore Require Import ScoreModel SimdModel GenAvx2 GenLane4 ScoreProofs SimdProofs Sse2Proofs
